@@ -30,6 +30,9 @@ type scenario struct {
 	Runners      int    `json:"runners"`
 	Cancellers   int    `json:"cancellers"` // callers that cancel the context Run was given
 	StartRunning bool   `json:"startRunning"`
+	// Phased = n > 0: senders 1..n go first, the stoppers start when those Sends have returned, the runners when the
+	// Stops have returned, the remaining senders when the Runs have returned (a pool that is used, stopped, started and used again)
+	Phased int `json:"phased,omitempty"`
 	// Schedule, when present, is replayed: one entry per observation of a TLC behaviour (S<j>, T<t>, R<r>, F, W);
 	// the actor is stepped if it is parked at a gate, otherwise it reaches its next gate by itself
 	Schedule []string `json:"schedule,omitempty"`
@@ -79,10 +82,44 @@ func execute(sc scenario, mode string, pick picker) (ex execution) {
 	stopReturned := false
 	s := sched.New()
 	s.Transient = []string{"wpool.(*Pool).Send"}
+	s.HarnessWaits = []string{"main.execute"}
 	s.SettleTimeout = 10 * time.Second
+	// phases (closed channels let everybody through when the scenario is not phased)
+	firstDone, stopsDone, runsDone := make(chan struct{}), make(chan struct{}), make(chan struct{})
+	var phaseMu sync.Mutex
+	nFirst, nStops, nRuns := 0, 0, 0
+	count := func(n *int, want int, ch chan struct{}) {
+		phaseMu.Lock()
+		*n++
+		if *n == want {
+			close(ch)
+		}
+		phaseMu.Unlock()
+	}
+	if sc.Phased <= 0 || sc.Phased > sc.Jobs {
+		sc.Phased = 0
+		close(firstDone)
+		close(stopsDone)
+		close(runsDone)
+	} else {
+		if sc.Stoppers == 0 {
+			close(stopsDone)
+		}
+		if sc.Runners == 0 {
+			close(runsDone)
+		}
+	}
 	for j := 1; j <= sc.Jobs; j++ {
 		j := j
 		s.Go(fmt.Sprintf("S%d", j), func() {
+			if sc.Phased > 0 && j > sc.Phased {
+				<-runsDone
+			}
+			defer func() {
+				if sc.Phased > 0 && j <= sc.Phased {
+					count(&nFirst, sc.Phased, firstDone)
+				}
+			}()
 			pool.Send(ctx, fmt.Sprint("job", j), func(context.Context) error {
 				mu.Lock()
 				running++
@@ -101,6 +138,12 @@ func execute(sc scenario, mode string, pick picker) (ex execution) {
 	}
 	for t := 1; t <= sc.Stoppers; t++ {
 		s.Go(fmt.Sprintf("T%d", t), func() {
+			<-firstDone
+			defer func() {
+				if sc.Phased > 0 {
+					count(&nStops, sc.Stoppers, stopsDone)
+				}
+			}()
 			pool.Stop()
 			mu.Lock()
 			if running > 0 {
@@ -112,6 +155,12 @@ func execute(sc scenario, mode string, pick picker) (ex execution) {
 	}
 	for r := 1; r <= sc.Runners; r++ {
 		s.Go(fmt.Sprintf("R%d", r), func() {
+			<-stopsDone
+			defer func() {
+				if sc.Phased > 0 {
+					count(&nRuns, sc.Runners, runsDone)
+				}
+			}()
 			pool.Run(runCtx)
 			mu.Lock()
 			stopReturned = false
